@@ -17,9 +17,12 @@ var order = [][]string{
 func ParseVector(vector string) (*CVSS20, error) {
 	// Split parts
 	partsPtr := splitPool.Get()
+	vhook("get", partsPtr, "")
 	defer splitPool.Put(partsPtr)
+	defer vhook("put", partsPtr, "")
 	pts := partsPtr.([]string)
 	ei := split(pts, vector)
+	vhook("split", partsPtr, vector)
 	pts = pts[:ei+1]
 
 	// Work on each CVSS part
@@ -33,6 +36,7 @@ func ParseVector(vector string) (*CVSS20, error) {
 	slci := 0
 	i := 0
 	for _, pt := range pts {
+		vhook("read", partsPtr, pt)
 		abv, v, _ := strings.Cut(pt, ":")
 		tgt := ""
 		switch slci {
